@@ -6,15 +6,24 @@ from .vecgen import Cfg
 
 def _vector_prop(prop):
     def fn(report, tier):
-        cov = vecprops.run_oracles(prop, tier, report)
-        report.coverage.update(cov)
-        report.level = "exploration"
+        vecprops.check_vector_property(prop, report, tier)
     return fn
 
 
 REGISTRY = {}
-for _p in ("C01", "C02", "C05", "C06", "C07", "C08", "C10"):
+for _p in ("C01", "C08"):
     REGISTRY[_p] = _vector_prop(_p)
+
+
+def _lazy(mod):
+    def fn(report, tier):
+        import importlib
+        importlib.import_module("lib." + mod).check(report, tier)
+    return fn
+
+
+for _p, _m in (("C18", "c18"),):
+    REGISTRY[_p] = _lazy(_m)
 
 
 def replay(prop, payload):
